@@ -164,8 +164,14 @@ Proof. vm_compute. reflexivity. Qed.
 
 Lemma gc_groups_wf : wf gc_Punctuation && wf gc_Separator && wf gc_Other = true.
 Proof. vm_compute. reflexivity. Qed.
+(* the generated definition must be this expression as written: a syntactic comparison, because
+   unification of two different set expressions would evaluate them *)
 Lemma word_set_shape : word_char_set = diff (diff (diff all gc_Punctuation) gc_Separator) gc_Other.
-Proof. reflexivity. Qed.
+Proof.
+  unfold word_char_set.
+  lazymatch goal with |- ?a = ?b => first [constr_eq a b | fail 1 "word_char() is not all - P - Z - C as written"] end.
+  reflexivity.
+Qed.
 
 Theorem word_char_spec c : c <= max_cp ->
   mem word_char_set c = negb (mem gc_Punctuation c || mem gc_Separator c || mem gc_Other c).
